@@ -209,45 +209,14 @@ fn check_state(
         }
         unsafe { llg_free_matcher(m2) };
     }
-    // ---- constraint interface (sampling loop)
-    let mut res = LlgMaskResult { sample_mask: std::ptr::null(), temperature: 0.0, is_stop: false };
-    let code = unsafe { llg_compute_mask(&mut *cc, &mut res) };
-    let rres = rc.compute_mask().map(|r| (r.sample_mask.clone(), r.is_stop()));
-    if (code == 0) != rres.is_ok() {
-        return Err(v("constraint_compute_mask_code", "ffi-result-differs", json!({"c": code, "rust_ok": rres.is_ok()})));
-    }
-    if let Ok((rmask, rstop)) = &rres {
-        if res.is_stop != *rstop {
-            return Err(v("constraint_is_stop", "ffi-result-differs", json!({"c": res.is_stop, "rust": rstop})));
-        }
-        match rmask {
-            Some(rm_) => {
-                if res.sample_mask.is_null() {
-                    return Err(v("constraint_mask_null", "ffi-result-differs", json!({})));
-                }
-                let got = unsafe { std::slice::from_raw_parts(res.sample_mask, rm_.as_slice().len()) };
-                if got != rm_.as_slice() {
-                    return Err(v("constraint_mask", "ffi-result-differs", json!({"c": got, "rust": rm_.as_slice()})));
-                }
-            }
-            None => {
-                if !res.sample_mask.is_null() {
-                    return Err(v("constraint_mask_not_null", "ffi-result-differs", json!({})));
-                }
-            }
-        }
-        if unsafe { llg_is_stopped(&*cc) } != rc.step_result().is_stop() {
-            return Err(v("constraint_is_stopped", "ffi-result-differs", json!({})));
-        }
-    }
     // ---- llg_par_compute_mask on clones, every destination length
     let max_bytes = 2 * words * 4 + 8;
     for with_cb in [false, true] {
         let mut len = 0;
         while len <= max_bytes {
             let c2 = unsafe { llg_clone_constraint(&*cc) };
-            // expected from a Rust clone in the same state: the C constraint has just computed a
-            // mask, the clone recomputes it
+            // expected from a Rust clone in the same state (no mask computed yet in this state, so
+            // the single stop step is exercised too)
             let mut r2 = rc.clone();
             let exp = r2.compute_mask().map(|r| (r.sample_mask.clone(), r.is_stop()));
             let n = len / 4;
@@ -304,6 +273,37 @@ fn check_state(
                 }
             }
             len += 4;
+        }
+    }
+    // ---- constraint interface (sampling loop)
+    let mut res = LlgMaskResult { sample_mask: std::ptr::null(), temperature: 0.0, is_stop: false };
+    let code = unsafe { llg_compute_mask(&mut *cc, &mut res) };
+    let rres = rc.compute_mask().map(|r| (r.sample_mask.clone(), r.is_stop()));
+    if (code == 0) != rres.is_ok() {
+        return Err(v("constraint_compute_mask_code", "ffi-result-differs", json!({"c": code, "rust_ok": rres.is_ok()})));
+    }
+    if let Ok((rmask, rstop)) = &rres {
+        if res.is_stop != *rstop {
+            return Err(v("constraint_is_stop", "ffi-result-differs", json!({"c": res.is_stop, "rust": rstop})));
+        }
+        match rmask {
+            Some(rm_) => {
+                if res.sample_mask.is_null() {
+                    return Err(v("constraint_mask_null", "ffi-result-differs", json!({})));
+                }
+                let got = unsafe { std::slice::from_raw_parts(res.sample_mask, rm_.as_slice().len()) };
+                if got != rm_.as_slice() {
+                    return Err(v("constraint_mask", "ffi-result-differs", json!({"c": got, "rust": rm_.as_slice()})));
+                }
+            }
+            None => {
+                if !res.sample_mask.is_null() {
+                    return Err(v("constraint_mask_not_null", "ffi-result-differs", json!({})));
+                }
+            }
+        }
+        if unsafe { llg_is_stopped(&*cc) } != rc.step_result().is_stop() {
+            return Err(v("constraint_is_stopped", "ffi-result-differs", json!({})));
         }
     }
     if BROKEN_REDZONES.load(Ordering::Relaxed) > 0 {
